@@ -14,8 +14,9 @@ import common
 from common import coq_list, coq_N
 
 IMPORTS = 'From XV Require Import Base Tree.'
-TAGS = {'root': 1, 'section': 2, 'title': 3, 'para': 4, 'item': 5, 'note': 6, 'value': 7, 'tag': 8, 'bogus': 9}
+TAGS = {'root': 1, 'section': 2, 'title': 3, 'para': 4, 'item': 5, 'note': 6, 'value': 7, 'tag': 8, 'bogus': 9, 'wrap': 10}
 NS = 'urn:d'
+WNS = 'urn:w'      # namespace of the undeclared wrapper element matched by the lax wildcard
 
 
 def schema_xsd(ns):
@@ -31,7 +32,8 @@ def schema_xsd(ns):
             '<xs:element name="para" type="xs:string" minOccurs="0" maxOccurs="unbounded"/>'
             '<xs:element name="item" type="%sitemType" minOccurs="0" maxOccurs="unbounded"/>'
             '<xs:element name="section" type="%ssectionType" minOccurs="0" maxOccurs="2"/>'
-            '<xs:element name="note" type="xs:string" minOccurs="0"/></xs:sequence>'
+            '<xs:element name="note" type="xs:string" minOccurs="0"/>'
+            '<xs:any namespace="##other" processContents="lax" minOccurs="0"/></xs:sequence>'
             '<xs:attribute name="id" type="xs:NCName" use="required"/><xs:attribute name="level" type="xs:int"/>'
             '</xs:complexType>'
             '<xs:element name="section" type="%ssectionType"/>'
@@ -54,6 +56,9 @@ def gen_doc(rng, depth=0):
             kids += [section(d + 1) for _ in range(rng.choice([0, 0, 1, 2]))]
         if rng.random() < 0.4:
             kids.append({'tag': 'note', 'attrs': {}, 'text': 'n', 'kids': []})
+        if d < 2 and rng.random() < 0.25:
+            # an undeclared element admitted by the lax wildcard, wrapping a globally declared element
+            kids.append({'tag': 'wrap', 'attrs': {}, 'text': None, 'kids': [section(d + 1)]})
         attrs = {'id': 's%d' % rng.randint(0, 999)}
         if rng.random() < 0.5:
             attrs['level'] = str(d)
@@ -62,10 +67,10 @@ def gen_doc(rng, depth=0):
 
 
 def render(n, ns, top=True):
-    p = 't:' if ns else ''
+    p = 'w:' if n['tag'] == 'wrap' else 't:' if ns else ''
     a = ''.join(' %s="%s"' % kv for kv in n['attrs'].items())
-    if top and ns:
-        a = ' xmlns:t="%s"' % NS + a
+    if top:
+        a = (' xmlns:t="%s"' % NS if ns else '') + ' xmlns:w="%s"' % WNS + a
     inner = (n['text'] or '') + ''.join(render(k, ns, False) for k in n['kids'])
     return '<%s%s%s>%s</%s%s>' % (p, n['tag'], a, inner, p, n['tag'])
 
@@ -166,8 +171,9 @@ def subject(case):
         try:
             xp, nsmap = e.path, dict(e.namespaces or {})
             if '{' in xp:      # expanded names (a tree without prefix information): spell them with a prefix for XPath
-                xp = xp.replace('{%s}' % NS, 'zz:')
+                xp = xp.replace('{%s}' % NS, 'zz:').replace('{%s}' % WNS, 'zw:')
                 nsmap['zz'] = NS
+                nsmap['zw'] = WNS
             sel = elementpath.select(root, xp, namespaces=nsmap)
             r['selected'] = len(sel)
             r['selects_elem'] = len(sel) == 1 and sel[0] is elem
@@ -187,7 +193,7 @@ def path_string(steps, ns):
     p = 't:' if ns else ''
     s = '/' + p + 'root'
     for g, pos in steps:
-        s += '/' + p + rev[g]
+        s += '/' + ('w:' if rev[g] == 'wrap' else p) + rev[g]
         if pos is not None:
             s += '[%d]' % (pos[1] if isinstance(pos, tuple) else pos)
     return s
